@@ -471,6 +471,9 @@ def ro_program(rng, pid, cfg, cs, n_ops, end_setup="unmount", poke=None, end="un
     if poke:
         e["poke"] = poke
     ops.append(e)
+    # the read-only session takes place later (another day, month or year: stored access dates are not "today")
+    if rng.random() < 0.7:
+        ops.append({"op": "clock", "t": [rng.choice([2020, 2021, 2033]), rng.choice([6, 7, 12]), rng.choice([15, 16, 28]), 8, 0, 2, 0]})
     hs = {}
     n = 0
     for _ in range(n_ops):
@@ -1187,6 +1190,8 @@ def foreign_tree(rng, cs, depth=0, n_entries=6, oem_high=False):
             pre.append({"t": "orphan", "name": "deleted long name %d.tmp" % i, "chk": rng.randrange(256)})
         if pre:
             e["pre"] = pre
+        if rng.random() < 0.25:
+            e["ea"] = rng.choice([1, 2, 0x10, 0xFFFF])      # FAT12/16: extended-attribute handle of another system in the word at offset 20
         if kind == "f":
             e["size"] = rng.choice([0, 1, cs - 1, cs, cs + 1, 2 * cs, 3 * cs + 17])
             e["pat"] = rng.randrange(1, 1000)
